@@ -116,6 +116,22 @@ def rule_R2(ctx, f, b):
                             ok2 = False
                     ctx.ob(rid, "write@%s#%d|push#%d|ordered-source" % (hname, i, pi), ok2,
                            "a value pushed into a hashed Vec must not come from iterating a hash container (found %s)" % show(p.args[1]), site=p.span)
+            # every element is hashed: no path through the loop body reaches the next iteration without passing the write
+            nx = [c for c in b.calls_to("Iterator::next") if c.result_term() in list(subterms(w.args[1]))]
+            okall = len(nx) == 1
+            if okall:
+                msi = b.switch_info(nx[0].target)
+                okall = bool(msi) and b.all_paths_pass([t for v_, t in msi[1] if v_ == 1][0], [w.bb], dst_set={nx[0].bb})
+            ctx.ob(rid, "write@%s#%d|every-element" % (hname, i), okall, "every element of the iterated container must be hashed: no path through the loop body may skip the write", site=w.span)
+            if kind == "vec":
+                for pi, p in enumerate(pushes_into(b, peel(e[0]))):
+                    pnx = [c for c in b.calls_to("Iterator::next") if c.result_term() in list(subterms(p.args[1]))]
+                    if not pnx:
+                        okp = b.dominates(p.bb, w.bb)
+                    else:
+                        psi = b.switch_info(pnx[0].target)
+                        okp = len(pnx) == 1 and bool(psi) and b.all_paths_pass([t for v_, t in psi[1] if v_ == 1][0], [p.bb], dst_set={pnx[0].bb})
+                    ctx.ob(rid, "write@%s#%d|push#%d|every-element" % (hname, i, pi), okp, "every value must be pushed into the hashed Vec: unconditionally, and for every element of the name set", site=p.span)
             ctx.ob(rid, "write@%s#%d|ordered" % (hname, i), ok, "the hasher must iterate an ordered container without reordering adapters (found %s over %s)" % (e[1], kind), site=w.span)
 
 
